@@ -333,7 +333,7 @@ func checkWindow(pl *pool, win *ssa.Function) {
 				}
 			}
 		}
-		if ld, ok := in.(*ssa.UnOp); ok && isLoadOf(ld, "subConnRef.refreshCnt") {
+		if v := valueOf(in); v != nil && isLoadOf(v, "subConnRef.refreshCnt") {
 			usesCnt = true
 		}
 		if _, ok := staticCallNamed(valueOf(in), ".GetUnresponsiveDetectionMs"); ok {
